@@ -91,7 +91,9 @@ def decode_seq(fn):
 
 
 def count_decodes(t):
-    return sum(1 for c in calls_in(t) if c[1].endswith("Decode::decode") or c[1].endswith("Decode>::decode"))
+    """number of *distinct* decode calls a term depends on (the same call reached through the Ok and the Err alternative of
+    an inlined helper's result is one call)"""
+    return len({c for c in calls_in(t) if c[1].endswith("Decode::decode") or c[1].endswith("Decode>::decode")})
 
 
 def result_aggregate(fn, self_ty):
